@@ -1,4 +1,4 @@
-\* hashdb, exhaustive: 2 tries of height 2 (4 keys, 7 paths each), <= 3 updates from any known state
+\* hashdb, exhaustive (quick): updates touch 3 of the 4 keys
 \* (forks are free: the database does not track state roots), Commit / cache warm-up / restart anywhere
 CONSTANTS
   H = 2
@@ -6,7 +6,7 @@ CONSTANTS
   Tries = {"ct", "s1"}
   MaxUpdates = 3
   MaxRestarts = 2
-  UpdKeys = 4
+  UpdKeys = 3
   Bug = "none"
 INIT Init
 NEXT Next
